@@ -27,9 +27,12 @@ never inside `/repo`; results and the violated labels are stored in each `seeded
 `./check selftest --seeds` repeats the whole matrix. Four patches were rebased by hand after a
 `fix:` commit touched their lines (noted in their meta.json).
 
-**What the rounds showed.** Rounds 1-2 (44 changes): 9 were missed at first. Round 3 (34): 8
-missed. Round 4 (36, aimed at untouched clauses): 15 missed. Every miss led to a stronger check,
-except three that stay outside the claimed scope (below). The recurring reasons for a miss, and
+**What the rounds showed.** Rounds 1-2 (44 changes): about 10 were missed at first. Round 3 (34): 8
+missed. Round 4 (36, aimed at untouched clauses): 15 missed. Round 5 (35): 12 missed (five of them
+only because I had pre-empted the others from the agents' summaries). Every miss led to a stronger
+check, except the one that stays outside the claimed scope (below). Twice the sub-agents'
+side remarks about the *unmodified* tree pointed at genuine defects (the unguarded INIT branch,
+the BUNDLE transport handling), which the strengthened checks then found and confirmed. The recurring reasons for a miss, and
 what was done about each:
 
 * *history deeper than the quick bound* — C12 (register, register, unregister, route), C14 (a
@@ -49,8 +52,11 @@ what was done about each:
   `signaling`), follow-up negotiations (C03);
 * *my harness overrode the thing that was changed* — C03 patched `DYNAMIC_PAYLOAD_TYPES` with a
   literal range; it now derives the proxy from the code's own constant;
-* *operations in flight* — C14 `close-begin` / `setLocal-begin` start a call without awaiting it
-  and judge the following calls against the state that call leads to.
+* *operations in flight / schedules* — C14 `close-begin` / `setLocal-begin` start a call without
+  awaiting it and judge the following calls against the state that call leads to; C01
+  `interleave` lets several `_send` tasks interleave at the transport's suspension point under a
+  solver-chosen schedule; C12 `compound` unregisters an endpoint while an earlier packet of the
+  same datagram is being handled.
 
 Not caught, and why: **C03-m3** needs two negotiations overlapping in time on a live ICE/DTLS
 connection (outside the C03 claim). Changes caught only by a *sibling* property's check are shown
